@@ -666,6 +666,11 @@ func main() {
 	for k, v := range contStatus {
 		fragStatus[k] = v
 	}
+	heapLean, heapStatus := translateHeap() // frag_heap.go
+	writeIfChanged(filepath.Join(outDir, "Heap.lean"), heapLean)
+	for k, v := range heapStatus {
+		fragStatus[k] = v
+	}
 	if len(os.Args) > 3 {
 		b, _ := json.MarshalIndent(map[string]any{"lockTable": tab, "effects": effs, "consts": cs, "regeneratedFunctions": fragStatus}, "", " ")
 		writeIfChanged(os.Args[3], string(b)+"\n")
